@@ -55,8 +55,10 @@ class _StoreSplitAction(argparse.Action):
             template = string.Template(self.format)
             split_values = [template.substitute(value=v) for v in split_values]
         if self.dest == "passes":
+            # Key by the first spelling of the flag, which is also the key of
+            # its default: any spelling must replace that default.
             passes = getattr(namespace, "_passes")
-            passes[option_string] = split_values
+            passes[self.option_strings[0]] = split_values
         else:
             setattr(namespace, self.dest, split_values)
 
